@@ -289,9 +289,85 @@ static void filegraph_run(const Ctx& c) {
 // case, and every builder on top of FileGraph would only repeat it.
 template <class E>
 static bool usable(Files<E>& files, int ver, bool transposed = false) {
-  return filegraph_diff<E>(transposed ? files.tr(ver) : files.fwd(ver),
-                           transposed ? files.r.tcsr : files.r.csr)
-      .empty();
+  int& memo = files.ok[transposed ? 1 : 0][ver];
+  if (memo < 0)
+    memo = filegraph_diff<E>(transposed ? files.tr(ver) : files.fwd(ver),
+                             transposed ? files.r.tcsr : files.r.csr)
+               .empty();
+  return memo != 0;
+}
+
+// readGraph(g, filename) goes through FileGraph::fromFileInterleaved, which
+// wakes the WHOLE pool (4 threads here) whatever T is; readGraph(g, FileGraph&)
+// is the same builder minus that page-touching pass.  by_name is used for the
+// first (default-option) build of each layout, the documented FileGraph&
+// overload for the option variants and the version-2 files.
+template <class G>
+static void load(G& g, const std::string& path, bool by_name) {
+  if (by_name) {
+    gg::readGraph(g, path);
+  } else {
+    gg::FileGraph f;
+    f.fromFile(path);
+    gg::readGraph(g, f);
+  }
+}
+template <class G>
+static void load2(G& g, const std::string& p1, const std::string& p2,
+                  bool by_name) {
+  if (by_name) {
+    gg::readGraph(g, p1, p2);
+  } else {
+    gg::FileGraph f1, f2;
+    f1.fromFile(p1);
+    f2.fromFile(p2);
+    gg::readGraph(g, f1, f2);
+  }
+}
+
+// A failure that must not stop the rest of the run (known defects): the first
+// one is rethrown at the end.
+struct Deferred {
+  bool failed = false;
+  sx::Fail first;
+  template <class F>
+  void run(F f) {
+    try {
+      f();
+    } catch (const sx::Fail& x) {
+      if (!failed)
+        first = x;
+      failed = true;
+    }
+  }
+  void rethrow() {
+    if (failed)
+      throw first;
+  }
+};
+
+// Calls 0..k-1, any of which may kill the process.  invoke(i, check) performs
+// call i and, if check, verifies its result.  One fork when all survive;
+// otherwise each call is probed on its own, died(i, how) is told, and the
+// surviving calls are still checked.
+template <class Invoke, class Died>
+static void guarded_calls(size_t k, Invoke invoke, Died died) {
+  std::string d = dies_in_child([&]() {
+    for (size_t i = 0; i < k; ++i)
+      invoke(i, false);
+  });
+  if (d.empty()) {
+    for (size_t i = 0; i < k; ++i)
+      invoke(i, true);
+    return;
+  }
+  for (size_t i = 0; i < k; ++i) {
+    std::string di = dies_in_child([&]() { invoke(i, false); });
+    if (!di.empty())
+      died(i, di);
+    else
+      invoke(i, true);
+  }
 }
 
 // ===========================================================================
@@ -458,7 +534,7 @@ static void csr_build_manual(G& g, const Ref& r) {
   g.initializeLocalRanges();
 }
 
-enum { B_VIEWS = 1, B_V2 = 2, B_ALL = 4 };
+enum { B_VIEWS = 1, B_V2 = 2, B_ALL = 4, B_NAME = 8 };
 
 template <class E, class G>
 static void csr_layout(const std::string& L, const Ctx& c, Files<E>& files,
@@ -466,7 +542,7 @@ static void csr_layout(const std::string& L, const Ctx& c, Files<E>& files,
   const Ref& r = c.r;
   {
     G g;
-    gg::readGraph(g, files.fwd(1));
+    load(g, files.fwd(1), (what & B_NAME) != 0);
     Adj a = csr_static<E>(L + ":readGraph", g, c);
     if (observed)
       *observed = a;
@@ -475,18 +551,11 @@ static void csr_layout(const std::string& L, const Ctx& c, Files<E>& files,
   }
   if ((what & B_V2) && usable(files, 2)) {
     G g;
-    gg::readGraph(g, files.fwd(2));
+    load(g, files.fwd(2), false);
     csr_static<E>(L + ":readGraph-v2", g, c);
   }
   if (!(what & B_ALL))
     return;
-  { // from an already loaded FileGraph
-    gg::FileGraph f;
-    f.fromFile(files.fwd(1));
-    G g;
-    gg::readGraph(g, f);
-    csr_static<E>(L + ":readGraph(FileGraph)", g, c);
-  }
   { // allocateFrom + constructNodes + constructEdge + fixEndEdge
     G g;
     csr_build_manual<E>(g, r);
@@ -543,7 +612,7 @@ static void csr_run(const Ctx& c) {
   bool full = full_programme(c);
   typedef gg::LC_CSR_Graph<int, E> G0;
   csr_layout<E, G0>("LC_CSR_Graph", c, files,
-                    full ? B_VIEWS | B_V2 | B_ALL : B_V2, &obs);
+                    B_NAME | (full ? B_VIEWS | B_V2 | B_ALL : B_V2), &obs);
   csr_layout<E, typename G0::template with_numa_alloc<true>::type>(
       "LC_CSR_Graph<numa>", c, files, full ? B_VIEWS | B_V2 : 0, nullptr);
   csr_layout<E, typename G0::template with_no_lockable<true>::type>(
@@ -564,27 +633,36 @@ static void csr_fesbd_run(const Ctx& c) {
   g.sortAllEdgesByDst();
   const Ref& r = c.r;
   auto pairs   = query_pairs(r);
-  std::string d = dies_in_child([&]() {
-    for (auto& q : pairs)
-      (void)g.findEdgeSortedByDst(q.first, q.second);
-  });
-  if (!d.empty())
-    fail(K + ":crash", "%s: some findEdgeSortedByDst(u,v) on the dst-sorted "
-                       "graph kills the process: %s",
-         c.str().c_str(), d.c_str());
-  uint64_t h = 0;
-  for (auto& q : pairs) {
-    auto e   = g.findEdgeSortedByDst(q.first, q.second);
-    bool in  = *e >= r.csr.begin(q.first) && *e < r.csr.end(q.first);
-    bool hit = in && g.getEdgeDst(e) == q.second;
-    bool ok  = has_edge(r, q.first, q.second) ? hit
-                                              : e == g.edge_end(q.first);
-    if (!ok)
-      fail(K + ":wrong-answer", "%s: findEdgeSortedByDst(%llu,%llu) -> edge %llu",
-           c.str().c_str(), (unsigned long long)q.first,
-           (unsigned long long)q.second, (unsigned long long)*e);
-    h = sx::mix(h, hit);
-  }
+  uint64_t h   = 0;
+  Deferred df;
+  guarded_calls(
+      pairs.size(),
+      [&](size_t i, bool check) {
+        auto& q = pairs[i];
+        auto e  = g.findEdgeSortedByDst(q.first, q.second);
+        if (!check)
+          return;
+        bool in  = *e >= r.csr.begin(q.first) && *e < r.csr.end(q.first);
+        bool hit = in && g.getEdgeDst(e) == q.second;
+        bool ok  = has_edge(r, q.first, q.second) ? hit
+                                                  : e == g.edge_end(q.first);
+        if (!ok)
+          fail(K + ":wrong-answer",
+               "%s: findEdgeSortedByDst(%llu,%llu) -> edge %llu",
+               c.str().c_str(), (unsigned long long)q.first,
+               (unsigned long long)q.second, (unsigned long long)*e);
+        h = sx::mix(h, hit);
+      },
+      [&](size_t i, const std::string& how) {
+        df.run([&]() {
+          fail(K + ":crash",
+               "%s: findEdgeSortedByDst(%llu,%llu) on the dst-sorted graph "
+               "kills the process: %s",
+               c.str().c_str(), (unsigned long long)pairs[i].first,
+               (unsigned long long)pairs[i].second, how.c_str());
+        });
+      });
+  df.rethrow();
   if (r.n >= 2 && r.m >= 2)
     sx::mark_nontrivial();
   sx::outcome(h);
@@ -598,46 +676,58 @@ static void csr_units_run(const Ctx& c) {
   const std::string K = "determineUnitRangesFromGraph(LC_CSR_Graph)";
   G g;
   gg::readGraph(g, files.fwd(1));
-  uint64_t h      = 0;
-  uint32_t units  = (uint32_t)c.T;
-  for (uint32_t alpha : {0u, 1u, 3u}) {
-    std::string ctx = c.str() + " units=" + std::to_string(units) +
-                      " nodeAlpha=" + std::to_string(alpha);
-    std::string d   = dies_in_child(
-        [&]() { (void)gg::determineUnitRangesFromGraph(g, units, alpha); });
-    if (!d.empty())
-      fail(K + ":crash", "%s: %s", ctx.c_str(), d.c_str());
-    auto v = gg::determineUnitRangesFromGraph(g, units, alpha);
-    check_boundaries(K, v, units, c.r.n, ctx);
-    for (auto x : v)
-      h = sx::mix(h, x);
-  }
-  // clipped to every sub-range of the nodes (small graphs only)
-  if (c.r.n <= 3)
+  uint32_t units = (uint32_t)c.T;
+  struct Call {
+    uint32_t alpha, b, e;
+    bool clipped;
+  };
+  std::vector<Call> calls;
+  for (uint32_t alpha : {0u, 1u, 3u})
+    calls.push_back(Call{alpha, 0, (uint32_t)c.r.n, false});
+  if (c.r.n <= 3) // clipped to every sub-range of the nodes
     for (uint32_t alpha : {0u, 1u})
       for (uint32_t b = 0; b <= c.r.n; ++b)
-        for (uint32_t e = b; e <= c.r.n; ++e) {
-          std::string ctx = c.str() + " units=" + std::to_string(units) +
-                            " nodeAlpha=" + std::to_string(alpha) +
-                            " range=[" + std::to_string(b) + "," +
-                            std::to_string(e) + ")";
-          std::string d = dies_in_child([&]() {
-            (void)gg::determineUnitRangesFromGraph(g, units, b, e, alpha);
-          });
-          if (!d.empty())
-            fail(K + "-clipped:crash", "%s: %s", ctx.c_str(), d.c_str());
-          auto w = gg::determineUnitRangesFromGraph(g, units, b, e, alpha);
-          std::ostringstream o;
-          for (auto x : w)
-            o << x << " ";
-          bool ok = w.size() == (size_t)units + 1 && w.front() == b &&
-                    w.back() == e;
-          for (size_t i = 1; ok && i < w.size(); ++i)
-            ok = w[i - 1] <= w[i];
-          if (!ok)
-            fail(K + "-clipped:not-a-partition", "%s: boundaries %s",
-                 ctx.c_str(), o.str().c_str());
-        }
+        for (uint32_t e = b; e <= c.r.n; ++e)
+          calls.push_back(Call{alpha, b, e, true});
+  auto ctx_of = [&](const Call& k) {
+    return c.str() + " units=" + std::to_string(units) +
+           " nodeAlpha=" + std::to_string(k.alpha) +
+           (k.clipped ? " range=[" + std::to_string(k.b) + "," +
+                            std::to_string(k.e) + ")"
+                      : std::string());
+  };
+  uint64_t h = 0;
+  Deferred df;
+  guarded_calls(
+      calls.size(),
+      [&](size_t i, bool check) {
+        const Call& k = calls[i];
+        std::vector<uint32_t> v =
+            k.clipped
+                ? gg::determineUnitRangesFromGraph(g, units, k.b, k.e, k.alpha)
+                : gg::determineUnitRangesFromGraph(g, units, k.alpha);
+        if (!check)
+          return;
+        std::ostringstream o;
+        for (auto x : v)
+          o << x << " ";
+        bool ok = v.size() == (size_t)units + 1 && v.front() == k.b &&
+                  v.back() == k.e;
+        for (size_t j = 1; ok && j < v.size(); ++j)
+          ok = v[j - 1] <= v[j];
+        if (!ok)
+          fail(K + (k.clipped ? "-clipped" : "") + ":not-a-partition",
+               "%s: boundaries %s", ctx_of(k).c_str(), o.str().c_str());
+        for (auto x : v)
+          h = sx::mix(h, x);
+      },
+      [&](size_t i, const std::string& how) {
+        df.run([&]() {
+          fail(K + (calls[i].clipped ? "-clipped" : "") + ":crash", "%s: %s",
+               ctx_of(calls[i]).c_str(), how.c_str());
+        });
+      });
+  df.rethrow();
   if (c.r.n >= 2 && c.r.m >= 2 && c.T >= 2)
     sx::mark_nontrivial();
   sx::outcome(h);
@@ -649,30 +739,27 @@ static void csr_grfile_run(const Ctx& c) {
   Files<E> files(c.r);
   typedef gg::LC_CSR_Graph<int, E> G;
   Adj obs;
-  bool failed = false;
-  sx::Fail first;
-  for (int ver = 1; ver <= 2; ++ver) {
-    std::string K = std::string("LC_CSR_Graph:readGraphFromGRFile") +
-                    (ver == 2 ? "-v2" : "");
-    try {
-      const std::string& path = files.fwd(ver);
-      std::string d           = dies_in_child([&]() {
+  Deferred df;
+  auto key = [](size_t i) {
+    return std::string("LC_CSR_Graph:readGraphFromGRFile") +
+           (i == 1 ? "-v2" : "");
+  };
+  files.fwd(1);
+  files.fwd(2);
+  guarded_calls(
+      2,
+      [&](size_t i, bool check) {
         G g;
-        g.readGraphFromGRFile(path);
+        g.readGraphFromGRFile(files.fwd((int)i + 1));
+        if (check)
+          df.run([&]() { obs = csr_static<E>(key(i), g, c); });
+      },
+      [&](size_t i, const std::string& how) {
+        df.run([&]() {
+          fail(key(i) + ":crash", "%s: %s", c.str().c_str(), how.c_str());
+        });
       });
-      if (!d.empty())
-        fail(K + ":crash", "%s: %s", c.str().c_str(), d.c_str());
-      G g;
-      g.readGraphFromGRFile(path);
-      obs = csr_static<E>(K, g, c);
-    } catch (const sx::Fail& f) {
-      if (!failed)
-        first = f;
-      failed = true;
-    }
-  }
-  if (failed)
-    throw first;
+  df.rethrow();
   finish_run(c, obs);
 }
 
@@ -715,7 +802,7 @@ static Adj csc_dump_in(const std::string& K, G& g, const Ctx& c) {
 
 template <class E, class G>
 static void csc_checks(const std::string& L, const std::string& builder, G& g,
-                       const Ctx& c, bool views) {
+                       const Ctx& c, bool views, Deferred& df) {
   std::string ctx = c.str();
   std::string K   = L + ":" + builder;
   csr_static<E>(K, g, c); // the out side is a complete LC_CSR_Graph
@@ -728,8 +815,12 @@ static void csc_checks(const std::string& L, const std::string& builder, G& g,
     for (uint64_t u = 0; u < c.r.n; ++u)
       g.sortInEdgesByDst(u);
   });
-  if (!d.empty())
-    fail(L + ":sortInEdgesByDst:crash", "%s: %s", ctx.c_str(), d.c_str());
+  if (!d.empty()) {
+    df.run([&]() {
+      fail(L + ":sortInEdgesByDst:crash", "%s: %s", ctx.c_str(), d.c_str());
+    });
+    return;
+  }
   for (uint64_t u = 0; u < c.r.n; ++u)
     g.sortInEdgesByDst(u);
   Adj got = csc_dump_in<E>(L + ":sortInEdgesByDst", g, c);
@@ -747,35 +838,25 @@ static void csc_checks(const std::string& L, const std::string& builder, G& g,
 
 template <class E, class G>
 static void csc_layout(const std::string& L, const Ctx& c, Files<E>& files,
-                       bool full) {
+                       bool full, bool by_name, bool grfile_ok, Deferred& df) {
   {
     G g;
-    gg::readGraph(g, files.fwd(1));
+    load(g, files.fwd(1), by_name);
     g.constructIncomingEdges();
-    csc_checks<E>(L, "readGraph+constructIncomingEdges", g, c, full);
+    csc_checks<E>(L, "readGraph+constructIncomingEdges", g, c, full, df);
   }
   if (!full)
     return;
   if (usable(files, 2)) {
     G g;
-    gg::readGraph(g, files.fwd(2));
+    load(g, files.fwd(2), false);
     g.constructIncomingEdges();
-    csc_checks<E>(L, "readGraph-v2+constructIncomingEdges", g, c, false);
+    csc_checks<E>(L, "readGraph-v2+constructIncomingEdges", g, c, false, df);
   }
-  {
-    // readAndConstructBiGraphFromGRFile = readGraphFromGRFile (which has its
-    // own case and its own findings) + constructIncomingEdges: only where the
-    // former survives.
-    const std::string& path = files.fwd(1);
-    std::string d           = dies_in_child([&]() {
-      gg::LC_CSR_Graph<int, E> g0;
-      g0.readGraphFromGRFile(path);
-    });
-    if (d.empty()) {
-      G g;
-      g.readAndConstructBiGraphFromGRFile(path);
-      csc_checks<E>(L, "readAndConstructBiGraphFromGRFile", g, c, false);
-    }
+  if (grfile_ok) {
+    G g;
+    g.readAndConstructBiGraphFromGRFile(files.fwd(1));
+    csc_checks<E>(L, "readAndConstructBiGraphFromGRFile", g, c, false, df);
   }
 }
 
@@ -783,13 +864,28 @@ template <class E>
 static void csc_run(const Ctx& c) {
   Files<E> files(c.r);
   bool full = full_programme(c);
+  Deferred df;
+  // readAndConstructBiGraphFromGRFile = readGraphFromGRFile (which has its own
+  // case and its own findings) + constructIncomingEdges: used only where the
+  // former survives.
+  bool grfile_ok = false;
+  if (full) {
+    const std::string& path = files.fwd(1);
+    grfile_ok               = dies_in_child([&]() {
+                  gg::LC_CSR_Graph<int, E> g0;
+                  g0.readGraphFromGRFile(path);
+                }).empty();
+  }
   csc_layout<E, gg::LC_CSR_CSC_Graph<int, E, false>>(
-      "LC_CSR_CSC_Graph<in-data-by-ref>", c, files, full);
+      "LC_CSR_CSC_Graph<in-data-by-ref>", c, files, full, true, grfile_ok, df);
   csc_layout<E, gg::LC_CSR_CSC_Graph<int, E, true>>(
-      "LC_CSR_CSC_Graph<in-data-by-value>", c, files, full);
+      "LC_CSR_CSC_Graph<in-data-by-value>", c, files, full, false, grfile_ok,
+      df);
   if (full)
     csc_layout<E, gg::LC_CSR_CSC_Graph<int, E, false, false, true>>(
-        "LC_CSR_CSC_Graph<in-data-by-ref,numa>", c, files, false);
+        "LC_CSR_CSC_Graph<in-data-by-ref,numa>", c, files, false, false, false,
+        df);
+  df.rethrow();
   finish_run(c, expect_adj<E>(c.r.tcsr));
 }
 
@@ -846,14 +942,14 @@ static bool symmetric_with_data(const Ref& r, bool void_data) {
 
 template <class E, class G>
 static void inout_csr_layout(const std::string& L, const Ctx& c,
-                             Files<E>& files, bool full) {
+                             Files<E>& files, bool full, bool by_name) {
   std::string ctx = c.str();
   Adj wantIn      = expect_adj<E>(c.r.tcsr);
   Adj wantOut     = expect_adj<E>(c.r.csr);
   {
     std::string K = L + ":readGraph(file,transpose)";
     G g;
-    gg::readGraph(g, files.fwd(1), files.tr(1));
+    load2(g, files.fwd(1), files.tr(1), by_name);
     csr_static<E>(K, g, c);
     NodeMap<G> nm = positional_map(K, g, c.r.n, ctx);
     compare_adj(K, "in-edges", inout_dump_in<E>(K, g, nm, c), wantIn, false,
@@ -894,7 +990,7 @@ static void inout_csr_layout(const std::string& L, const Ctx& c,
   if (usable(files, 2) && usable(files, 2, true)) {
     std::string K = L + ":readGraph-v2(file,transpose)";
     G g;
-    gg::readGraph(g, files.fwd(2), files.tr(2));
+    load2(g, files.fwd(2), files.tr(2), false);
     csr_static<E>(K, g, c, true, false);
     NodeMap<G> nm = positional_map(K, g, c.r.n, ctx);
     compare_adj(K, "in-edges", inout_dump_in<E>(K, g, nm, c), wantIn, false,
@@ -903,7 +999,7 @@ static void inout_csr_layout(const std::string& L, const Ctx& c,
   if (symmetric_with_data(c.r, std::is_void<E>::value)) {
     std::string K = L + ":readGraph(symmetric-file)";
     G g;
-    gg::readGraph(g, files.fwd(1));
+    load(g, files.fwd(1), false);
     csr_static<E>(K, g, c, true, false);
     NodeMap<G> nm = positional_map(K, g, c.r.n, ctx);
     compare_adj(K, "in-edges", inout_dump_in<E>(K, g, nm, c), wantIn, false,
@@ -951,11 +1047,11 @@ static Adj ptr_static(const std::string& K, G& g, const Ctx& c,
 
 template <class E, class G>
 static void linear_layout(const std::string& L, const Ctx& c, Files<E>& files,
-                          bool full, Adj* observed) {
+                          bool full, bool by_name, Adj* observed) {
   std::string ctx = c.str();
   {
     G g;
-    gg::readGraph(g, files.fwd(1));
+    load(g, files.fwd(1), by_name);
     NodeMap<G> nm;
     Adj a = ptr_static<E>(L + ":readGraph", g, c, &nm);
     if (observed)
@@ -973,7 +1069,7 @@ static void linear_layout(const std::string& L, const Ctx& c, Files<E>& files,
   }
   if (full && usable(files, 2)) {
     G g;
-    gg::readGraph(g, files.fwd(2));
+    load(g, files.fwd(2), false);
     ptr_static<E>(L + ":readGraph-v2", g, c);
   }
 }
@@ -984,7 +1080,7 @@ static void inout_linear_layout(const std::string& L, const Ctx& c,
   std::string ctx = c.str();
   std::string K   = L + ":readGraph(file,transpose)";
   G g;
-  gg::readGraph(g, files.fwd(1), files.tr(1));
+  load2(g, files.fwd(1), files.tr(1), false);
   NodeMap<G> nm;
   ptr_static<E>(K, g, c, &nm);
   compare_adj(K, "in-edges", inout_dump_in<E>(K, g, nm, c),
@@ -997,11 +1093,11 @@ static void inout_run(const Ctx& c) {
   bool full = full_programme(c);
   typedef gg::LC_CSR_Graph<int, E> C0;
   inout_csr_layout<E, gg::LC_InOut_Graph<C0>>("LC_InOut_Graph<LC_CSR_Graph>",
-                                              c, files, full);
+                                              c, files, full, true);
   if (full) {
     inout_csr_layout<
         E, gg::LC_InOut_Graph<typename C0::template with_numa_alloc<true>::type>>(
-        "LC_InOut_Graph<LC_CSR_Graph<numa>>", c, files, false);
+        "LC_InOut_Graph<LC_CSR_Graph<numa>>", c, files, false, false);
     inout_linear_layout<E, gg::LC_InOut_Graph<gg::LC_Linear_Graph<int, E>>>(
         "LC_InOut_Graph<LC_Linear_Graph>", c, files);
   }
@@ -1014,15 +1110,16 @@ static void linear_run(const Ctx& c) {
   bool full = full_programme(c);
   Adj obs;
   typedef gg::LC_Linear_Graph<int, E> G0;
-  linear_layout<E, G0>("LC_Linear_Graph", c, files, full, &obs);
+  linear_layout<E, G0>("LC_Linear_Graph", c, files, full, true, &obs);
   linear_layout<E, typename G0::template with_numa_alloc<true>::type>(
-      "LC_Linear_Graph<numa>", c, files, false, nullptr);
+      "LC_Linear_Graph<numa>", c, files, false, false, nullptr);
   linear_layout<E, typename G0::template with_no_lockable<true>::type>(
-      "LC_Linear_Graph<no_lockable>", c, files, false, nullptr);
+      "LC_Linear_Graph<no_lockable>", c, files, false, false, nullptr);
   if (full)
     linear_layout<E,
                   typename G0::template with_out_of_line_lockable<true>::type>(
-        "LC_Linear_Graph<out_of_line_lockable>", c, files, false, nullptr);
+        "LC_Linear_Graph<out_of_line_lockable>", c, files, false, false,
+        nullptr);
   finish_run(c, obs);
 }
 
@@ -1040,12 +1137,15 @@ struct has_construct4<
 };
 
 template <class E, class G>
-static void inline_build(G& g, const std::string& path) {
+static void inline_build(G& g, const std::string& path, bool by_name) {
   if constexpr (has_construct4<G>::value) {
-    gg::readGraph(g, path);
+    load(g, path, by_name);
   } else {
     gg::FileGraph f;
-    f.fromFileInterleaved<E>(path);
+    if (by_name)
+      f.fromFileInterleaved<E>(path);
+    else
+      f.fromFile(path);
     g.allocateFrom(f);
     galois::on_each(
         [&](unsigned tid, unsigned total) { g.constructFrom(f, tid, total); });
@@ -1054,18 +1154,18 @@ static void inline_build(G& g, const std::string& path) {
 
 template <class E, class G>
 static void inline_layout(const std::string& L, const Ctx& c, Files<E>& files,
-                          bool v2, Adj* observed) {
+                          bool v2, bool by_name, Adj* observed) {
   const char* b = has_construct4<G>::value ? ":readGraph" : ":constructFrom";
   {
     G g;
-    inline_build<E>(g, files.fwd(1));
+    inline_build<E>(g, files.fwd(1), by_name);
     Adj a = ptr_static<E>(L + b, g, c);
     if (observed)
       *observed = a;
   }
   if (v2 && usable(files, 2)) {
     G g;
-    inline_build<E>(g, files.fwd(2));
+    inline_build<E>(g, files.fwd(2), false);
     ptr_static<E>(L + b + "-v2", g, c);
   }
 }
@@ -1077,20 +1177,21 @@ static void inline_run(const Ctx& c) {
   Adj obs;
   typedef gg::LC_InlineEdge_Graph<int, E> G0;
   typedef typename G0::template with_compressed_node_ptr<true>::type G1;
-  inline_layout<E, G0>("LC_InlineEdge_Graph", c, files, full, &obs);
+  inline_layout<E, G0>("LC_InlineEdge_Graph", c, files, full, true, &obs);
   inline_layout<E, G1>("LC_InlineEdge_Graph<compressed_node_ptr>", c, files,
-                       full, nullptr);
+                       full, false, nullptr);
   inline_layout<E, typename G0::template with_numa_alloc<true>::type>(
-      "LC_InlineEdge_Graph<numa>", c, files, false, nullptr);
+      "LC_InlineEdge_Graph<numa>", c, files, false, false, nullptr);
   if (full) {
     inline_layout<E, typename G1::template with_numa_alloc<true>::type>(
         "LC_InlineEdge_Graph<compressed_node_ptr,numa>", c, files, false,
-        nullptr);
+        false, nullptr);
     inline_layout<E, typename G0::template with_no_lockable<true>::type>(
-        "LC_InlineEdge_Graph<no_lockable>", c, files, false, nullptr);
+        "LC_InlineEdge_Graph<no_lockable>", c, files, false, false, nullptr);
     inline_layout<E,
                   typename G0::template with_out_of_line_lockable<true>::type>(
-        "LC_InlineEdge_Graph<out_of_line_lockable>", c, files, false, nullptr);
+        "LC_InlineEdge_Graph<out_of_line_lockable>", c, files, false, false,
+        nullptr);
   }
   finish_run(c, obs);
 }
@@ -1342,14 +1443,14 @@ static bool morph_recover(const std::string& K, G& g, const Ctx& c,
 
 template <class E, class G>
 static void morph_layout(const std::string& L, const Ctx& c, Files<E>& files,
-                         bool full, Adj* observed) {
+                         bool full, bool by_name, Adj* observed) {
   const Ref& r = c.r;
   for (int ver = 1; ver <= (full ? 2 : 1); ++ver) {
     if (ver == 2 && !usable(files, 2))
       continue;
     std::string K = L + (ver == 2 ? ":readGraph-v2" : ":readGraph");
     MorphBox<G> box;
-    gg::readGraph(*box, files.fwd(ver));
+    load(*box, files.fwd(ver), by_name && ver == 1);
     NodeMap<G> nm;
     if (morph_recover<E>(K, *box, c, nm))
       morph_checks<E>(K, *box, nm, c);
@@ -1359,7 +1460,7 @@ static void morph_layout(const std::string& L, const Ctx& c, Files<E>& files,
     MorphBox<G> box;
     G& g = *box;
     gg::FileGraph f;
-    f.fromFileInterleaved<E>(files.fwd(1));
+    f.fromFile(files.fwd(1));
     typename G::ReadGraphAuxData aux;
     g.allocateFrom(f, aux);
     galois::on_each([&](unsigned tid, unsigned total) {
@@ -1406,12 +1507,12 @@ static void morph_run(const Ctx& c) {
   bool full = full_programme(c);
   Adj obs;
   typedef gg::LC_Morph_Graph<int, E> G0;
-  morph_layout<E, G0>("LC_Morph_Graph", c, files, full, &obs);
+  morph_layout<E, G0>("LC_Morph_Graph", c, files, full, true, &obs);
   if (full) {
     morph_layout<E, typename G0::template with_numa_alloc<true>::type>(
-        "LC_Morph_Graph<numa>", c, files, false, nullptr);
+        "LC_Morph_Graph<numa>", c, files, false, false, nullptr);
     morph_layout<E, typename G0::template with_no_lockable<true>::type>(
-        "LC_Morph_Graph<no_lockable>", c, files, false, nullptr);
+        "LC_Morph_Graph<no_lockable>", c, files, false, false, nullptr);
   }
   finish_run(c, obs);
 }
@@ -1672,29 +1773,41 @@ static sx::EnumCase small_case(const Layout& L) {
 }
 
 static sx::EnumCase family_case(const std::vector<Layout>& Ls) {
-  // idx -> (family graph, layout, T, E); every layout with its own Es/Ts would
-  // make decoding irregular, so the family uses all four T and E for all.
+  // idx -> (family graph, layout, T, E).  Quick tier: E in {void, pod12};
+  // thorough: all four.
+  struct D {
+    uint64_t gi, l;
+    int T, E;
+  };
+  auto dec = [Ls](uint64_t idx, bool th) {
+    D d;
+    int nE = th ? 4 : 2;
+    int e  = idx % nE;
+    d.E    = th ? e : (e == 0 ? 0 : 3);
+    idx /= nE;
+    d.T = 1 + idx % 4;
+    idx /= 4;
+    d.l  = idx % Ls.size();
+    d.gi = idx / Ls.size();
+    return d;
+  };
   sx::EnumCase c;
   c.name  = "structured family (paths, stars, cliques, skew; <=3000 nodes) | "
             "all layouts";
-  c.count = [Ls](bool) { return (uint64_t)family().size() * Ls.size() * 16; };
-  c.run   = [Ls](uint64_t idx, bool th) {
-    rt();
-    int E = idx % 4;
-    int T = 1 + (idx / 4) % 4;
-    uint64_t l  = (idx / 16) % Ls.size();
-    uint64_t gi = idx / 16 / Ls.size();
-    galois::setActiveThreads(T);
-    Ctx ctx{family()[gi], T, ENAMES[E], th};
-    Ls[l].fn[E](ctx);
+  c.count = [Ls](bool th) {
+    return (uint64_t)family().size() * Ls.size() * 4 * (th ? 4 : 2);
   };
-  c.describe = [Ls](uint64_t idx, bool) {
-    int E = idx % 4;
-    int T = 1 + (idx / 4) % 4;
-    uint64_t l  = (idx / 16) % Ls.size();
-    uint64_t gi = idx / 16 / Ls.size();
-    return Ls[l].name + ": " + ref_str(family()[gi]) + " E=" + ENAMES[E] +
-           " T=" + std::to_string(T);
+  c.run = [Ls, dec](uint64_t idx, bool th) {
+    rt();
+    D d = dec(idx, th);
+    galois::setActiveThreads(d.T);
+    Ctx ctx{family()[d.gi], d.T, ENAMES[d.E], th};
+    Ls[d.l].fn[d.E](ctx);
+  };
+  c.describe = [Ls, dec](uint64_t idx, bool th) {
+    D d = dec(idx, th);
+    return Ls[d.l].name + ": " + ref_str(family()[d.gi]) + " E=" +
+           ENAMES[d.E] + " T=" + std::to_string(d.T);
   };
   c.weight = 2;
   return c;
